@@ -586,3 +586,33 @@ mod tests {
         assert_eq!(res4, 4);
     }
 }
+
+/// Forwarders for the external verification harnesses (see `crate::verif_hooks`). One call / field read each, no logic.
+#[cfg(any(kani, mmtk_verif))]
+pub mod verif_hooks {
+    use super::*;
+    pub fn units_per_block(l: &RawMemoryFreeList) -> i32 {
+        l.units_per_block()
+    }
+    pub fn units_in_first_block(l: &RawMemoryFreeList) -> i32 {
+        l.units_in_first_block()
+    }
+    pub fn current_capacity(l: &RawMemoryFreeList) -> i32 {
+        l.current_capacity()
+    }
+    pub fn raise_high_water(l: &mut RawMemoryFreeList, blocks: i32) {
+        l.raise_high_water(blocks)
+    }
+    pub fn high_water(l: &RawMemoryFreeList) -> Address {
+        l.high_water
+    }
+    pub fn base(l: &RawMemoryFreeList) -> Address {
+        l.base
+    }
+    pub fn current_units(l: &RawMemoryFreeList) -> i32 {
+        l.current_units
+    }
+    pub fn max_units(l: &RawMemoryFreeList) -> i32 {
+        l.max_units
+    }
+}
